@@ -88,6 +88,8 @@ package file
 //@     set gacc := ite(seq != 0, seq, gacc)
 //@   callee IncReadOps()
 //@     pure
+//@   callee Swap(v) (o)
+//@     requires false
 //@   callee IncMaxEventSizeExceeded(l)
 //@     pure
 //@   callee newMetaInformation(a, b, c, d)
@@ -441,11 +443,15 @@ package file
 // does not parse, a second entry with the same source id, or a bad stream list.
 // Anything else - e.g. two jobs with one inode and different source ids (a file and
 // a symlink to it), which save writes - must be accepted: one rejected entry makes
-// the whole offsets file unloadable and the next start panics.
+// the whole offsets file unloadable and the next start panics.  The inode and the
+// source id are written unsigned (AppendUint) and read unsigned (ParseUint, twice): a
+// source id >= 2^63 must load.
 
 //@ func (*offsetDB).parseOne
 //@   ghost bad bool = false
+//@   ghost nu int = 0
 //@   ensures result1 != nil ==> bad || has
+//@   ensures result1 == nil ==> nu == 2
 //@   callee parseLine(c, p) (v, rest, err)
 //@     requires true
 //@     set bad := bad || err != nil
@@ -454,6 +460,7 @@ package file
 //@   callee ParseUint(s, b, n) (v, err)
 //@     pure
 //@     set bad := bad || err != nil
+//@     set nu := nu + 1
 //@   callee ParseInt(s, b, n) (v, err)
 //@     pure
 //@     set bad := bad || err != nil
